@@ -760,6 +760,304 @@ theorem C02_a64_epilogue_exact (text : List Nat) (pc : Nat) (is : List A64.EpiIn
 end FH
 
 namespace FH
+namespace A64
+
+/-! ## Prologues -/
+
+inductive ProInsn where
+  | pacibsp
+  /-- `stp Xrt, Xrt2, [sp, #imm]!` / `[sp, #imm]` / `[sp], #imm` -/
+  | stp (mode : LdpMode) (rt rt2 imm7 : Nat)
+  /-- `sub sp, sp, #imm12 {, lsl #12}` -/
+  | subSp (imm12 : Nat) (lsl12 : Bool)
+  deriving Repr
+
+def ProInsn.WF : ProInsn → Prop
+  | .pacibsp => True
+  | .stp _ rt rt2 i => rt < 32 ∧ rt2 < 32 ∧ i < 128
+  | .subSp i _ => i < 4096
+
+/-- Bits 31..22 of `stp Xt, Xt2, [sp…]` (64-bit, store): `10 101 0 0mm 0`. -/
+def stpHi : LdpMode → Nat
+  | .off => 0b1010100100
+  | .post => 0b1010100010
+  | .pre => 0b1010100110
+
+def subSpWord (i : Nat) (sh : Bool) : Nat :=
+  0b110100010 * 8388608 + (if sh then 4194304 else 0) + i * 1024 + 31 * 32 + 31
+
+def ProInsn.enc : ProInsn → Nat
+  | .pacibsp => 0xd503237f
+  | .stp mode rt rt2 i => ldpWord (stpHi mode) rt rt2 i
+  | .subSp i sh => subSpWord i sh
+
+/-- How far the instruction moves sp down. -/
+def ProInsn.dec : ProInsn → Int
+  | .pacibsp => 0
+  | .stp .off _ _ _ => 0
+  | .stp _ _ _ i => -(sx7 i * 8)
+  | .subSp i sh => addImm i sh
+
+/-- sp after executing the instructions (registers x29/x30 are only stored, not changed;
+`pacibsp` changes only the bits of lr that the pointer authentication mask removes). -/
+def runPro : List ProInsn → Int → Int
+  | [], sp => sp
+  | i :: rest, sp => runPro rest (sp - i.dec)
+
+def totalDec (ps : List ProInsn) : Int := (ps.map ProInsn.dec).sum
+
+theorem runPro_total : ∀ (ps : List ProInsn) (sp : Int), runPro ps sp = sp - totalDec ps := by
+  intro ps
+  induction ps with
+  | nil => intro sp; simp [runPro, totalDec]
+  | cons i ps ih => intro sp; simp only [runPro, ih, totalDec, List.map_cons, List.sum_cons]; omega
+
+theorem subSpWord_fields (i : Nat) (sh : Bool) (h : i < 4096) :
+    subSpWord i sh >>> 23 = 0b110100010 ∧ subSpWord i sh >>> 22 = 0b1101000100 + (if sh then 1 else 0) ∧
+    subSpWord i sh &&& 31 = 31 ∧ (subSpWord i sh >>> 5) &&& 31 = 31 ∧ imm12 (subSpWord i sh) = addImm i sh := by
+  simp only [and31, and4095, and1, imm12, addImm, Nat.shiftRight_eq_div_pow, subSpWord]
+  cases sh <;> simp only [if_true, if_false, Bool.false_eq_true] <;>
+    refine ⟨?_, ?_, ?_, ?_, ?_⟩ <;> first | omega | (split <;> omega)
+
+theorem proEnc_lt (ins : ProInsn) (hwf : ins.WF) : ins.enc < 4294967296 := by
+  cases ins with
+  | pacibsp => simp [ProInsn.enc]
+  | stp mode rt rt2 i =>
+    obtain ⟨h1, h2, h3⟩ := hwf
+    cases mode <;> simp only [ProInsn.enc, ldpWord, stpHi] <;> omega
+  | subSp i sh =>
+    have hi : i < 4096 := hwf
+    simp only [ProInsn.enc, subSpWord]
+    cases sh <;> simp <;> omega
+
+theorem dec_bound (i : ProInsn) (hwf : i.WF) : i.dec.natAbs < 16777216 := by
+  cases i with
+  | pacibsp => simp [ProInsn.dec]
+  | stp mode rt rt2 k =>
+    have := sx7_bound k hwf.2.2
+    cases mode <;> simp [ProInsn.dec] <;> omega
+  | subSp k sh =>
+    have := addImm_bound k sh hwf
+    simp [ProInsn.dec]; omega
+
+/-- Stepping backwards over an executed prologue instruction adds what it subtracted. -/
+theorem proReverseStep_enc (ins : ProInsn) (off : Int) (hwf : ins.WF)
+    (hfit : (off + ins.dec).natAbs < 2147483648) :
+    proReverseStep ins.enc off = .valid (off + ins.dec) := by
+  cases ins with
+  | pacibsp => simp [proReverseStep, ProInsn.enc, ProInsn.dec]
+  | stp mode rt rt2 i =>
+    obtain ⟨h1, h2, h3⟩ := hwf
+    simp only [ProInsn.enc]
+    generalize hh : stpHi mode = hi
+    obtain ⟨f22, f23, f26, frn, _, frt, frt2⟩ := ldpWord_fields hi rt rt2 i h1 h2 h3
+    have fimm := imm7x8_ldpWord hi rt rt2 i h1 h2 h3
+    have hd : ldpWord hi rt rt2 i / 4194304 = hi := by
+      simpa [Nat.shiftRight_eq_div_pow] using f22
+    have hc : hi = 676 ∧ mode = .off ∨ hi = 674 ∧ mode = .post ∨ hi = 678 ∧ mode = .pre := by
+      rw [← hh]; cases mode <;> simp [stpHi]
+    have hc' : hi = 676 ∨ hi = 674 ∨ hi = 678 := by
+      rcases hc with ⟨h, _⟩ | ⟨h, _⟩ | ⟨h, _⟩ <;> simp [h]
+    have n1 : ldpWord hi rt rt2 i ≠ 0xd503237f := by intro e; rw [e] at hd; omega
+    rcases hc with ⟨rfl, rfl⟩ | ⟨rfl, rfl⟩ | ⟨rfl, rfl⟩
+    · simp [proReverseStep, n1, f22, f23, frn, ProInsn.dec]
+    · have : inI32 (off - sx7 i * 8) = true := inI32_of_abs _ (by simp only [ProInsn.dec] at hfit; omega)
+      simp [proReverseStep, n1, f22, f23, frn, fimm, ProInsn.dec, this]; omega
+    · have : inI32 (off - sx7 i * 8) = true := inI32_of_abs _ (by simp only [ProInsn.dec] at hfit; omega)
+      simp [proReverseStep, n1, f22, f23, frn, fimm, ProInsn.dec, this]; omega
+  | subSp i sh =>
+    have hi : i < 4096 := hwf
+    obtain ⟨f23, f22, frd, frn, fimm⟩ := subSpWord_fields i sh hi
+    have hd : subSpWord i sh / 8388608 = 418 := by
+      simpa [Nat.shiftRight_eq_div_pow] using f23
+    have n1 : subSpWord i sh ≠ 0xd503237f := by intro e; rw [e] at hd; omega
+    have n2 : ¬ ((subSpWord i sh >>> 22) &&& 0b1011111001 = 0b1010100000) := by
+      rw [f22]; cases sh <;> decide
+    have : inI32 (off + addImm i sh) = true := inI32_of_abs _ (by simpa [ProInsn.dec] using hfit)
+    simp [proReverseStep, ProInsn.enc, ProInsn.dec, n1, n2, f23, frd, frn, fimm, this]
+
+/-- Whether the scan would stop at this word (anything that is not a prologue instruction,
+e.g. the last instruction of the previous function). -/
+def StopsScan (w : Nat) : Prop := ∀ off, proReverseStep w off = .unexpected
+
+/-- The backwards scan over the executed prologue sums its sp decrements and stops at the
+function start or at the first foreign instruction. -/
+theorem proScan_rev : ∀ (rs : List ProInsn) (before : List Nat) (off : Int),
+    (∀ i ∈ rs, i.WF) → (before = [] ∨ ∃ w l, before = w :: l ∧ StopsScan w) →
+    off.natAbs + (rs.length + 1) * 16777216 ≤ 2000000000 →
+    proScan (rs.map ProInsn.enc ++ before) off = some (off + (rs.map ProInsn.dec).sum) := by
+  intro rs
+  induction rs with
+  | nil =>
+    intro before off _ hb _
+    simp only [List.map_nil, List.nil_append, List.sum_nil, Int.add_zero]
+    rcases hb with rfl | ⟨w, l, rfl, hw⟩
+    · rfl
+    · simp [proScan, hw off]
+  | cons i rs ih =>
+    intro before off hwf hb hbound
+    have hwi : i.WF := hwf i (by simp)
+    have hdb := dec_bound i hwi
+    simp only [List.length_cons] at hbound
+    simp only [List.map_cons, List.cons_append, List.sum_cons]
+    rw [proScan, proReverseStep_enc i off hwi (by omega)]
+    simp only
+    rw [ih before (off + i.dec) (fun j hj => hwf j (by simp [hj])) hb (by omega)]
+    congr 1; omega
+
+theorem proScan_prologue (ps : List ProInsn) (before : List Nat)
+    (hwf : ∀ i ∈ ps, i.WF) (hb : before = [] ∨ ∃ w l, before = w :: l ∧ StopsScan w)
+    (hlen : ps.length ≤ 100) :
+    proScan ((ps.map ProInsn.enc).reverse ++ before) 0 = some (totalDec ps) := by
+  have := proScan_rev ps.reverse before 0 (fun i hi => hwf i (by simpa using hi)) hb
+    (by simp; omega)
+  rw [List.map_reverse, List.map_reverse, List.sum_reverse_int] at this
+  simpa [totalDec] using this
+
+theorem code_append (a b : List Nat) : code (a ++ b) = code a ++ code b := by
+  simp [code]
+
+theorem wordAt_code : ∀ (ws : List Nat) (k : Nat) (rest : List Nat) (hk : k < ws.length),
+    (∀ w ∈ ws, w < 4294967296) → wordAt (code ws ++ rest) (4 * k) = ws[k] := by
+  intro ws
+  induction ws with
+  | nil => intro k rest hk; simp at hk
+  | cons w ws ih =>
+    intro k rest hk hlt
+    cases k with
+    | zero =>
+      rw [code_cons, List.append_assoc]
+      simpa using wordAt_wordBytes w (code ws ++ rest) (hlt w (by simp))
+    | succ k =>
+      have e : 4 * (k + 1) = (wordBytes w).length + 4 * k := by simp [wordBytes]; omega
+      rw [code_cons, List.append_assoc, e, wordAt_append]
+      simpa using ih k rest (by simpa using hk) (fun x hx => hlt x (by simp [hx]))
+
+theorem wordsRev_code (ws : List Nat) (hlt : ∀ w ∈ ws, w < 4294967296) :
+    wordsRev (code ws) = ws.reverse := by
+  unfold wordsRev
+  congr 1
+  apply List.ext_getElem
+  · simp [length_code]
+  · intro i h1 h2
+    simp only [List.getElem_map, List.getElem_range]
+    have := wordAt_code ws i [] h2 hlt
+    simpa using this
+
+/-- `add x29, sp, #k` (`mov x29, sp` for `k = 0`). -/
+def addFpWord (k : Nat) : Nat := 0b100100010 * 8388608 + k * 1024 + 31 * 32 + 29
+
+theorem proReverseStep_addFp (k : Nat) (hk : k < 4096) (off : Int) :
+    proReverseStep (addFpWord k) off = .fpSetUp := by
+  have f23 : addFpWord k >>> 23 = 0b100100010 := by
+    simp only [Nat.shiftRight_eq_div_pow, addFpWord]; omega
+  have f22 : addFpWord k >>> 22 = 0b1001000100 := by
+    simp only [Nat.shiftRight_eq_div_pow, addFpWord]; omega
+  have frd : addFpWord k &&& 31 = 29 := by simp only [and31, addFpWord]; omega
+  have frn : (addFpWord k >>> 5) &&& 31 = 31 := by
+    simp only [and31, Nat.shiftRight_eq_div_pow, addFpWord]; omega
+  have n1 : addFpWord k ≠ 0xd503237f := by simp only [addFpWord]; omega
+  simp [proReverseStep, n1, f22, f23, frd, frn]
+
+/-- Once the frame pointer has been set up the backwards scan gives up: the body rule applies. -/
+theorem proScan_after_fp_setup : ∀ (rs : List ProInsn) (k : Nat) (before : List Nat) (off : Int),
+    (∀ i ∈ rs, i.WF) → k < 4096 → off.natAbs + (rs.length + 1) * 16777216 ≤ 2000000000 →
+    proScan (rs.map ProInsn.enc ++ addFpWord k :: before) off = none := by
+  intro rs
+  induction rs with
+  | nil => intro k before off _ hk _; simp [proScan, proReverseStep_addFp k hk]
+  | cons i rs ih =>
+    intro k before off hwf hk hbound
+    have hwi : i.WF := hwf i (by simp)
+    have hdb := dec_bound i hwi
+    simp only [List.length_cons] at hbound
+    simp only [List.map_cons, List.cons_append]
+    rw [proScan, proReverseStep_enc i off hwi (by omega)]
+    simp only
+    exact ih k before (off + i.dec) (fun j hj => hwf j (by simp [hj])) hk (by omega)
+
+end A64
+
+open A64 in
+/-- **arm64 prologues are exact.** A thread stopped inside a prologue - after any sequence of
+`pacibsp`, `stp` (pre-index, signed offset, post-index; any registers, any immediates) and
+`sub sp, sp, #imm` counted from the function start or from the first foreign instruction
+before it, with another prologue-type instruction at pc: the rule found by instruction
+analysis restores exactly the sp the function was entered with, leaves fp alone and takes the
+return address from lr - which is the caller's state, since none of these instructions changes
+x29 or (up to pointer authentication bits) x30. -/
+theorem C02_a64_prologue_exact (pws : List Nat) (ps : List A64.ProInsn) (next : Nat) (rest : List Nat)
+    (regs : RegsA64) (mem : Mem) (spEntry : Int)
+    (hpws : pws = [] ∨ ∃ l w, pws = l ++ [w] ∧ A64.StopsScan w)
+    (hplt : ∀ w ∈ pws, w < 4294967296) (hnlt : next < 4294967296)
+    (hwf : ∀ i ∈ ps, i.WF) (hlen : ps.length ≤ 100)
+    (hnext : proInsnType next = .veryLikely ∨
+      (proInsnType next = .couldBeWithSub ∧ A64.totalDec ps ≠ 0))
+    (hrun : A64.runPro ps spEntry = regs.sp)
+    (hshape : (spEntry - regs.sp) % 16 = 0 ∧ spEntry - regs.sp < 1048576 ∧ regs.sp ≤ spEntry)
+    (hfit : spEntry < 18446744073709551616) :
+    ∃ rule, anaA64 (code (pws ++ ps.map A64.ProInsn.enc ++ [next]) ++ rest)
+        (4 * (pws.length + ps.length)) = some (some rule) ∧
+      execA64 rule true regs mem = finishA64 true regs regs.lr spEntry.toNat regs.fp := by
+  have htot : totalDec ps = spEntry - regs.sp := by
+    have := runPro_total ps spEntry; omega
+  obtain ⟨h16, hmax, h0⟩ := hshape
+  -- the slices
+  have hcode : code (pws ++ ps.map ProInsn.enc ++ [next]) ++ rest =
+      code (pws ++ ps.map ProInsn.enc) ++ (wordBytes next ++ rest) := by
+    rw [code_append, List.append_assoc]; simp [code]
+  have hl : (code (pws ++ ps.map ProInsn.enc)).length = 4 * (pws.length + ps.length) := by
+    rw [length_code]; simp
+  have htake : (code (pws ++ ps.map ProInsn.enc ++ [next]) ++ rest).take (4 * (pws.length + ps.length)) =
+      code (pws ++ ps.map ProInsn.enc) := by
+    rw [hcode, ← hl, List.take_left]
+  have hdrop : (code (pws ++ ps.map ProInsn.enc ++ [next]) ++ rest).drop (4 * (pws.length + ps.length)) =
+      wordBytes next ++ rest := by
+    rw [hcode, ← hl, List.drop_left]
+  have hnp : ¬ 4 * (pws.length + ps.length) > (code (pws ++ ps.map ProInsn.enc ++ [next]) ++ rest).length := by
+    rw [hcode, List.length_append, hl]; omega
+  have hl4 : ¬ (wordBytes next ++ rest).length < 4 := by simp [wordBytes]
+  have hw : wordAt (wordBytes next ++ rest) 0 = next := wordAt_wordBytes _ _ hnlt
+  have hall : ∀ w ∈ pws ++ ps.map ProInsn.enc, w < 4294967296 := by
+    intro w hw
+    rcases List.mem_append.mp hw with h | h
+    · exact hplt w h
+    · obtain ⟨i, hi, rfl⟩ := List.mem_map.mp h
+      exact proEnc_lt i (hwf i hi)
+  have hbefore : pws.reverse = [] ∨ ∃ w l, pws.reverse = w :: l ∧ StopsScan w := by
+    rcases hpws with rfl | ⟨l, w, rfl, hs⟩
+    · left; rfl
+    · right; exact ⟨w, l.reverse, by simp, hs⟩
+  have hscan : proScan (wordsRev (code (pws ++ ps.map ProInsn.enc))) 0 = some (totalDec ps) := by
+    rw [wordsRev_code _ hall, List.reverse_append]
+    exact proScan_prologue ps pws.reverse hwf hbefore hlen
+  have hq : (totalDec ps).tdiv 16 = totalDec ps / 16 := Int.tdiv_eq_ediv_of_nonneg (by omega)
+  have hq0 : 0 ≤ totalDec ps / 16 ∧ totalDec ps / 16 < 65536 := by omega
+  have hnt : ¬ proInsnType next = .notExpected := by
+    rcases hnext with h | ⟨h, _⟩ <;> rw [h] <;> simp
+  have hcw : ¬ (proInsnType next = .couldBeWithSub ∧ totalDec ps = 0) := by
+    rcases hnext with h | ⟨_, h⟩
+    · rw [h]; simp
+    · intro ⟨_, h'⟩; exact h h'
+  have hnew : regs.sp + (totalDec ps / 16).toNat * 16 = spEntry.toNat := by omega
+  have hlt : regs.sp + (totalDec ps / 16).toNat * 16 < U64 := by unfold U64; omega
+  have hmul : (totalDec ps / 16).toNat * 16 < U64 := by unfold U64; omega
+  have hana : anaPrologueA64 (code (pws ++ ps.map ProInsn.enc ++ [next]) ++ rest)
+      (4 * (pws.length + ps.length)) =
+      some (some (if totalDec ps / 16 = 0 then .noOp else .offsetSp (totalDec ps / 16).toNat)) := by
+    simp only [anaPrologueA64, hnp, if_false, htake, hdrop, hl4, hw, hnt, hscan, hcw, hq, hq0,
+      and_self, if_true]
+  by_cases hz : totalDec ps / 16 = 0
+  · refine ⟨.noOp, by rw [anaA64, hana]; simp [hz], ?_⟩
+    have : spEntry.toNat = regs.sp := by omega
+    simp [execA64, this]
+  · refine ⟨.offsetSp (totalDec ps / 16).toNat, by rw [anaA64, hana]; simp [hz], ?_⟩
+    simp only [execA64, Bool.not_true, Bool.false_eq_true, if_false]
+    rw [umul_eq _ hmul, cadd_eq_some hlt, hnew]
+
+end FH
+
+namespace FH
 open A64
 
 /-! ## Non-vacuity -/
@@ -783,6 +1081,29 @@ example :
   · simp [FitsAll, EffFits, applyEff, setOff, sx7, addImm, inI32]
   · simp [Shape, effAll, applyEff, setOff, sx7, addImm]
   · simp [runM, stepM, readAt, sx7, setRegM, addImm]
+
+/-- `ret` (the end of the previous function) stops the backwards prologue scan. -/
+example : StopsScan 0xd65f03c0 := by intro off; simp [proReverseStep]
+
+/-- `ret | pacibsp; stp x24, x23, [sp, #-64]!; stp x22, x21, [sp, #16]` with
+`stp x20, x19, [sp, #32]` at pc (`_malloc_zone_realloc`, framehop's own unit test bytes): the
+hypotheses of `C02_a64_prologue_exact` hold and the rule is `OffsetSp 4`. -/
+example :
+    let ps := [ProInsn.pacibsp, .stp .pre 24 23 120, .stp .off 22 21 2]
+    (∀ i ∈ ps, i.WF) ∧ totalDec ps = 64 ∧ runPro ps 0x1040 = 0x1000 ∧
+    proInsnType 0xa9024ff4 = .couldBeWithSub ∧
+    code ([0xd65f03c0] ++ ps.map ProInsn.enc ++ [0xa9024ff4]) =
+      [0xc0, 0x03, 0x5f, 0xd6, 0x7f, 0x23, 0x03, 0xd5, 0xf8, 0x5f, 0xbc, 0xa9, 0xf6, 0x57, 0x01, 0xa9,
+       0xf4, 0x4f, 0x02, 0xa9] ∧
+    anaA64 [0xc0, 0x03, 0x5f, 0xd6, 0x7f, 0x23, 0x03, 0xd5, 0xf8, 0x5f, 0xbc, 0xa9, 0xf6, 0x57, 0x01, 0xa9,
+       0xf4, 0x4f, 0x02, 0xa9] 16 = some (some (.offsetSp 4)) := by
+  refine ⟨?_, by decide, by decide, by decide, by decide, by decide⟩
+  intro i hi; simp at hi; rcases hi with rfl | rfl | rfl <;> simp [ProInsn.WF]
+
+/-- After `stp x29, x30, [sp, #-16]!; mov x29, sp` with `sub sp, sp, #0x400` at pc the analysis
+defers to the body rule (frame pointer), as it must: fp no longer holds the caller's value. -/
+example : anaA64 [0xfd, 0x7b, 0xbf, 0xa9, 0xfd, 0x03, 0x00, 0x91, 0xff, 0x03, 0x10, 0xd1] 8 = some none := by
+  decide
 
 /-- `ldp x29, x30, [sp], #16; b target`: stopped on the `b`. -/
 example : anaA64 (wordBytes (EpiInsn.ldp .post 29 30 2).enc ++ wordBytes (EpiEnd.b 64).enc) 4 =
